@@ -60,6 +60,10 @@ class Contract:
         # termination measure (tuple of terms, compared lexicographically) of a recursion group: at a call site inside a
         # function under contract whose own contract has a measure, the callee's measure must be smaller
         self.decreases = getattr(impl, "decreases", None)
+        # __init__ of a base class: invariant clauses (labels "<Class>.<clause>") that talk about the complete object and
+        # are therefore neither obligated here nor assumed at the call sites of this constructor (the constructor of the
+        # concrete class is obligated to them)
+        self.inv_exempt = list(getattr(impl, "inv_exempt", []) or [])
 
     def clauses(self, which: str, s) -> List[Tuple[str, Any]]:
         fn = getattr(self, which)
